@@ -373,7 +373,7 @@ impl Xot {
     /// # Ok::<(), xot::Error>(())
     /// ```
     pub fn insert_after(&mut self, reference_node: Node, new_sibling: Node) -> Result<(), Error> {
-        self.add_structure_check(self.parent(reference_node), new_sibling)?;
+        self.sibling_structure_check(reference_node, new_sibling)?;
         self.remove_consolidate_text_nodes(
             self.previous_sibling(new_sibling),
             self.next_sibling(new_sibling),
@@ -393,7 +393,7 @@ impl Xot {
 
     /// Insert a new sibling before a reference node.
     pub fn insert_before(&mut self, reference_node: Node, new_sibling: Node) -> Result<(), Error> {
-        self.add_structure_check(self.parent(reference_node), new_sibling)?;
+        self.sibling_structure_check(reference_node, new_sibling)?;
         self.remove_consolidate_text_nodes(
             self.previous_sibling(new_sibling),
             self.next_sibling(new_sibling),
@@ -920,6 +920,20 @@ impl Xot {
             ));
         }
         Ok(())
+    }
+
+    fn sibling_structure_check(&self, reference_node: Node, new_sibling: Node) -> Result<(), Error> {
+        if !self.value(reference_node).is_normal() {
+            return Err(Error::InvalidOperation(
+                "Cannot insert next to an attribute or namespace node".into(),
+            ));
+        }
+        if reference_node == new_sibling {
+            return Err(Error::InvalidOperation(
+                "Cannot insert a node next to itself".into(),
+            ));
+        }
+        self.add_structure_check(self.parent(reference_node), new_sibling)
     }
 
     /// Remove insignificant whitespace
